@@ -6,13 +6,15 @@ import subprocess
 from . import build, sx
 
 
-def run_batch(requests):
-    """requests: list of python sexp values; returns list of python sexp values (or '!..' strings)."""
+def run_batch(requests, extended=False):
+    """requests: list of python sexp values; returns list of python sexp values (or '!..' strings).
+    extended=True runs the extended driver of the schema properties (commands 320 and up)."""
     if not requests:
         return []
+    driver = build.DRIVERX if extended else build.DRIVER
     text = "\n".join(sx.dumps(r) for r in requests) + "\n"
     p = subprocess.run(
-        ["bash", "-c", f"ulimit -s unlimited 2>/dev/null; ulimit -v 12000000 2>/dev/null; exec {build.DRIVER}"],
+        ["bash", "-c", f"ulimit -s unlimited 2>/dev/null; ulimit -v 12000000 2>/dev/null; exec {driver}"],
         input=text,
         capture_output=True,
         text=True,
